@@ -22,6 +22,13 @@ class Res:
         self.log.append((self.w.tick(), self.w.now(), "res.dispose"))
 
 
+class FalsyRes(Res):
+    """A resource that is a container and empty right now (as an empty CompositeDisposable is): falsy, yet a resource."""
+
+    def __len__(self):
+        return 0
+
+
 class Prop:
     id = "C40"
     level = "fault_enumeration"
@@ -29,7 +36,7 @@ class Prop:
     quick_runs = 25000
     thorough_runs = 500000
     chunk = 60
-    rule = ("per seeded scenario (one cold/hot/sync inner timeline; using with counting resources, finally_action, do_finally, do_action, "
+    rule = ("per seeded scenario (one cold/hot/sync inner timeline; using with counting resources - plain, falsy (an empty container), an empty CompositeDisposable filled by the observable factory, or None - finally_action, do_finally, do_action, "
             "do, tap and the do_* variants; 1-2 subscriptions) an undisturbed run, then one run per dispose point (every distinct instant "
             "x {early, late tie}, inside the k-th notification) and per exception position (resource factory, observable factory, k-th call "
             "of each side-effect callback). Checked: every created resource disposed exactly once per subscription, no later than the "
@@ -44,7 +51,10 @@ class Prop:
         kind = rng.choice(KINDS)
         ctx = catalog.Ctx(rng, hot_p=0.4, falsy_p=0.3, sync_p=0.15)
         ctx.new_source(maxn=5)
-        return {"clock": rng.choice(["test", "test", "historical"]), "kind": kind, "sources": ctx.sources, "subs": rng.choice([1, 1, 2]), "sub_t": 205, "horizon": 1200}
+        sc = {"clock": rng.choice(["test", "test", "historical"]), "kind": kind, "sources": ctx.sources, "subs": rng.choice([1, 1, 2]), "sub_t": 205, "horizon": 1200}
+        if kind == "using":
+            sc["res"] = rng.choice(["plain", "plain", "falsy", "bag", "none"])
+        return sc
 
     # ------------------------------------------------------------ one run
     def one(self, sc, out):
@@ -73,11 +83,21 @@ class Prop:
                 if fault.get("site") == "resource_factory":
                     w.fired.append((w.seq, "resource_factory", 0))
                     raise vt.InjectedFault("resource_factory")
-                r = Res(w, log)
+                shape = sc.get("res", "plain")
+                if shape == "none":
+                    return None  # "no resource": nothing to release, the sequence passes through
+                r = (FalsyRes if shape == "falsy" else Res)(w, log)
                 resources.append(r)
+                if shape == "bag":
+                    from reactivex.disposable import CompositeDisposable
+                    bag = CompositeDisposable()  # created empty, filled by the observable factory
+                    bag.pending = r
+                    return bag
                 return r
 
             def of(r):
+                if getattr(r, "pending", None) is not None:
+                    r.add(r.pending)
                 log.append((w.tick(), w.now(), "observable_factory"))
                 if fault.get("site") == "observable_factory":
                     w.fired.append((w.seq, "observable_factory", 0))
@@ -123,7 +143,7 @@ class Prop:
         fault = sc.get("fault")
         d = sc.get("dispose")
         spec = sc["sources"][0]
-        desc = "kind=%s fault=%s dispose=%s subs=%d source=%s" % (kind, fault, d, sc["subs"], (spec["kind"], spec["events"]))
+        desc = "kind=%s%s fault=%s dispose=%s subs=%d source=%s" % (kind, ("(resource=%s)" % sc["res"]) if "res" in sc else "", fault, d, sc["subs"], (spec["kind"], spec["events"]))
         out.digest = (kind, repr(fault), repr(d), tuple(r.kinds() for r in recs))
         out.sim_time = sc["horizon"]
         fired = bool(w.fired)
@@ -158,7 +178,7 @@ class Prop:
         if kind == "using":
             made = len(resources)
             n_sub = sum(1 for r in recs if r.sub_seq is not None)
-            exp_made = 0 if (fault and fault["site"] == "resource_factory") else n_sub
+            exp_made = 0 if ((fault and fault["site"] == "resource_factory") or sc.get("res") == "none") else n_sub
             if made != exp_made:
                 bad("resource-count", "%d resources created for %d subscriptions" % (made, n_sub))
             for i, res in enumerate(resources):
